@@ -37,7 +37,7 @@ MEANING = {1: "jump list has a zero or repeated jump", 2: "kinetic states differ
            3: "omega1 classes are not an exact-once closed classification of the swing jumps",
            4: "omega2 classes are not an exact-once closed classification of the exchanges"}
 
-WMAX = 1.5e7      # estimated work of one coqc call (calibrated, see design_notes/C26.md)
+WMAX = 1.0e7      # estimated work of one coqc call (calibrated, see design_notes/C26.md)
 
 OMEGA_IMPORTS = """From Coq Require Import List ZArith.
 From Onsager Require Import Model.Stars Model.OmegaNet.
@@ -167,10 +167,10 @@ def run(ck):
     crystalStars.zeroclean = _fastclean
     ck.note("crystalStars.zeroclean replaced by its vectorised equivalent in this process (expansions are not observed by C26)")
     rng = ck.rng
-    ncrys = ck.n(6, 36)
+    ncrys = ck.n(4, 36)
     vm_max_states = ck.n(140, 320)          # VacancyMediated construction cost grows fast
-    coq_cost_budget = ck.n(7e7, 8e8)      # sum of transitions * |G| * states sent to the model
-    coq_case_max = ck.n(1.5e7, 2.5e8)
+    coq_cost_budget = ck.n(4e7, 5e8)      # sum of transitions * |G| * states sent to the model
+    coq_case_max = ck.n(8e6, 1.6e7)   # one case <= ~60 s of coqc on an idle machine (rate ~ 3e5 units/s)
     defs, runs, meta, wts = [], [], [], []
     skipped = {"nonpercolating": 0, "construct-failed": 0, "geometry": 0, "coq-budget": 0, "vacancymediated-too-large": 0}
 
